@@ -63,6 +63,12 @@ def statusJ {α} : Except Err α → Json
 def handle (j : Json) : Except String Json := do
   let c ← jSContent (← field j "content")
   let pts ← jArr (← field j "points")
+  let upd : Option SContent ← match j.getObjVal? "upd" with
+    | .ok u => do
+      match ← jArr u with
+      | [k, v] => pure (some (c.setPar (← jStr k) (← jRat v)))
+      | _ => .error "bad upd"
+    | .error _ => pure none
   let cacheR := createCache c.toContent
   let sym := toSymbolic c
   let spec := specEqs c
@@ -77,7 +83,20 @@ def handle (j : Json) : Except String Json := do
          (match spec with | .ok es => evalAt es cache.varNames ρ | .error _ => Json.null))
       | .error _ => (Json.null, Json.null)
     let jf := resJ (fun o => match o with | none => Json.null | some m => matJ m) (callJac c t xs)
-    pure (Json.mkObj [("rhs", rhs), ("m", mv), ("s", sv), ("jacfn", jf)])
+    -- the installed closure called after `update_parameter`, and a closure installed afterwards
+    let ju : Json := match upd, installJac c with
+      | some now, some cl => resJ (fun r => matJ r.2) (cl.call now t xs)
+      | _, _ => Json.null
+    let jfresh : Json := match upd with
+      | some now =>
+        -- `null` where a denominator vanishes at the updated parameter values (Python raises there)
+        match createCache now.toContent, toSymbolic now with
+        | .ok cn, .ok esn =>
+          if (evalAt esn cn.varNames (symEnv now cn xs)).isNull then Json.null
+          else resJ (fun o => match o with | none => Json.null | some m => matJ m) (callJac now t xs)
+        | _, _ => Json.null
+      | none => Json.null
+    pure (Json.mkObj [("rhs", rhs), ("m", mv), ("s", sv), ("jacfn", jf), ("jacfn_upd", ju), ("jacfn_fresh", jfresh)])
   let ja := resJ (fun (a : List String × List String × List Rat) =>
       Json.arr #[strsJ a.1, strsJ a.2.1, ratsJ a.2.2]) (jacArgs c)
   pure (Json.mkObj [
